@@ -3,6 +3,7 @@
 package vx
 
 import (
+	"time"
 	"database/sql"
 
 	"github.com/gin-gonic/gin"
@@ -85,6 +86,11 @@ func FileRemoved(i int) string                 { panic("intrinsic") }
 func TablesDropped() int                       { panic("intrinsic") }
 func DBClosed() int                            { panic("intrinsic") }
 func FieldTag(sample any, field, key string) string { panic("intrinsic") }
+func DurationMs(name string, lo, hi int) time.Duration { panic("intrinsic") }
+func JwtOutcome() string                       { panic("intrinsic") }
+func CancelRequest()                           { panic("intrinsic") }
+func HttpErrors() int                          { panic("intrinsic") }
+func HttpErrorCode(i int) int                  { panic("intrinsic") }
 func IgnoreGo()                                { panic("intrinsic") }
 func SchedulerMayRefuse()                      { panic("intrinsic") }
 // GinContext: wildcards are the catch-all route parameters (*name), which gin delivers with a leading "/".
